@@ -185,27 +185,40 @@ structure PlusHdr where
   trb : Nat := 0
   dbquant : Nat := 0
   extra : List Nat := []
+  -- fixed marker bits (for generating headers that must be rejected): their correct values are the defaults
+  ufepCode : Option Nat := none  -- raw UFEP when neither 000 nor 001
+  oppTail : Nat := 8             -- OPPTYPE bits 15-18, must be 1000
+  mppTail : Nat := 1             -- MPPTYPE bits 7-9, must be 001
+  cpfmtMarker : Bool := true     -- CPFMT bit 14, must be 1
+  uuiBad : Bool := false         -- UUI = "00"
+  bciBad : Bool := false         -- BCI = "00"
   deriving Repr, DecidableEq, Inhabited
+
+def PlusHdr.markersOk (h : PlusHdr) : Bool :=
+  h.ufepCode.isNone && h.oppTail == 8 && h.mppTail == 1 && h.cpfmtMarker && !h.uuiBad && !h.bciBad
 
 /-- `scal`: scalability mode negotiated; `rpsInForce`: RPS flag in force (own OPPTYPE bit, or inherited when UFEP=000) -/
 def encodePlusHdr (scal : Bool) (rpsInForce : Bool) (h : PlusHdr) : Bits :=
   startCode ++ natBits 5 0 ++ natBits 8 h.tr ++
   [true, false, h.split, h.docCamera, h.freezeRelease] ++ natBits 3 7 ++
-  (if h.ufep then natBits 3 1 ++ natBits 3 h.srcFmt ++
-      [h.customPcf, h.umv, h.sac, h.ap, h.aic, h.df, h.ss, h.rps, h.isd, h.aiv, h.mq] ++ [true, false, false, false]
-   else natBits 3 0) ++
-  natBits 3 h.picType ++ [h.rpr, h.rru, h.rtype] ++ [false, false, true] ++
+  (match h.ufepCode with
+   | some c => natBits 3 c
+   | none =>
+     if h.ufep then natBits 3 1 ++ natBits 3 h.srcFmt ++
+        [h.customPcf, h.umv, h.sac, h.ap, h.aic, h.df, h.ss, h.rps, h.isd, h.aiv, h.mq] ++ natBits 4 h.oppTail
+     else natBits 3 0) ++
+  natBits 3 h.picType ++ [h.rpr, h.rru, h.rtype] ++ natBits 3 h.mppTail ++
   (match h.cpm with | some p => [true] ++ natBits 2 p | none => [false]) ++
   (if h.ufep ∧ h.srcFmt = 6 then
-      natBits 4 h.par ++ natBits 9 h.pwi ++ [true] ++ natBits 9 h.phi ++
+      natBits 4 h.par ++ natBits 9 h.pwi ++ [h.cpfmtMarker] ++ natBits 9 h.phi ++
       (if h.par = 15 then natBits 8 h.eparW ++ natBits 8 h.eparH else [])
    else []) ++
   (if h.ufep ∧ h.customPcf then natBits 8 h.cpcfc ++ natBits 2 h.etr else []) ++
-  (if h.ufep ∧ h.umv then (if h.uuiUnlimited then [false, true] else [true]) else []) ++
+  (if h.ufep ∧ h.umv then (if h.uuiBad then [false, false] else if h.uuiUnlimited then [false, true] else [true]) else []) ++
   (if h.ufep ∧ h.ss then [h.sssRect, h.sssArb] else []) ++
   (if scal then natBits 4 h.elnum ++ (if h.ufep then natBits 4 h.rlnum else []) else []) ++
   (if h.ufep ∧ h.rps then natBits 3 h.rpsmf else []) ++
-  (if rpsInForce then (match h.trp with | some t => [true] ++ natBits 10 t | none => [false]) ++ [false, true] else []) ++
+  (if rpsInForce then (match h.trp with | some t => [true] ++ natBits 10 t | none => [false]) ++ (if h.bciBad then [false, false] else [false, true]) else []) ++
   natBits 5 h.quant ++
   (if h.picType = 2 then natBits (if h.ufep ∧ h.customPcf then 5 else 3) h.trb ++ natBits 2 h.dbquant else []) ++
   encodePei h.extra
